@@ -128,6 +128,16 @@ SUMMARY = {
     "C08-7": ("coefficients written last, after `fits_movabs_hdu(fits, 1)`, once keys, knots and extents are in place", "crash after a later HDU reached the disk and before the coefficients did (knot vector > 1080 knots)", "missed at first; ED-8 (writer goes front to back) added"),
     "C09-7": ("`flatten_ndarray_to_sparse` accumulates the flattened index with an `int` stride", "more than 65536 coefficients (flattened index of the normal matrix beyond 2^32)", "missed at first; IW-1 (64-bit index products) added — also found D52"),
     "C10-7": ("`T'T` factor of the other dimensions' penalty computed with stype 1 (upper triangle only)", "monotonic dimension after a smoothed one, constraint inactive", "caught (SG-6)"),
+    "C11-7": ("`cholmod_l_rowdel` given the column of A (restricted to the free set) as row pattern instead of NULL", "sparse system whose factor has fill-in in the row being constrained (ring, grid), rank-1 downdate path", "missed at first; SP-4 (row pattern NULL or from the factor) added"),
+    "C12-7": ("coordinator leaves the completion loop as soon as a step reduced the residual and all earlier steps reported", "fewer workers than steps, accepted step not the last of its block, a straggling worker: TERMINATE overwritten, join hangs", "caught (MT-4, MT-6)"),
+    "C13-7": ("count checks of `smoothing` / `penaltyOrder` rewritten as `size()>1 && size()!=ndim`", "an empty smoothing or penalty-order list: `X[0]` of an empty vector", "caught (VG-1)"),
+    "C14-7": ("`std::unique(rho,rho+n_rho)` after the sort, result dropped, count unchanged", "two pairwise sums exactly equal (kernel knots on the table's grid)", "missed at first; UW-7 field-read-only-after-sort added"),
+    "C15-7": ("relocation loop skips zero coefficients (`continue`) while the scratch array is uninitialised", "a table with an exact zero coefficient and dirty heap storage", "missed at first; CL-5 every-coefficient-relocated added"),
+    "C16-7": ("`nquotes` dropped from the over-long-value test", "value with a quote whose length fits but length + quotes does not", "caught (KS-3)"),
+    "C17-7": ("fitter's `bspline()` adds a recursion term only when its knot span exceeds `DBL_EPSILON`", "axis in tiny units (knot spacing below 2.2e-16)", "caught (GE-3)"),
+    "C18-7": ("`splinetable_write_key` returns 1 when the C++ `write_key` returns false", "the same key written twice (false = overwritten, a success)", "missed at first; CW-3b (false after an effect is not a failure) added"),
+    "C19-7": ("`estimateMemory` steps to HDU i+2 instead of looking `KNOTS<i>` up by name", "file with the extensions in another sequence (foreign / re-packed), convolution declared", "missed at first; SM-8 (extensions located as the reader locates them) added"),
+    "C20-7": ("read guard relaxed to `ndim!=0` (a table holding only keys may be read into)", "`write_key` on an empty table, then `read_fits`: the key store is overwritten and leaked", "caught (TS-3b)"),
     "C20-2": ("`extents[0] = nullptr` removed from the reader", "allocation failure at the 7th request with a non-zero-filling allocator", "caught"),
 }
 try:
